@@ -761,6 +761,14 @@ ssize_t write(int fd, const void* buf, size_t n) {
 }
 
 // ---------------------------------------------------------------- readdir
+// listing a cgroup's children is a file access of the tick like any open: a fault point for "just before access k"
+DIR* fdopendir(int fd) {
+  REALFN(fnptr<DIR * (int)>, "fdopendir");
+  if (active()) {
+    on_access("fdopendir", fd_path(fd));
+  }
+  return real(fd);
+}
 struct dirent* readdir(DIR* d) {
   REALFN(fnptr<struct dirent * (DIR*)>, "readdir");
   struct dirent* r = real(d);
